@@ -183,7 +183,61 @@ class C08(Prop):
         elif model.ident(nl) != snap:
             res.violate("C08:second-uniquify-changes-netlist",
                         "; ".join(model.diff(snap, model.ident(nl))))
+        if res.violations:
+            return res
+        # 6. sharing introduced after a uniquify (one more instance of a non-leaf definition that sits
+        # below the top) is removed by the next uniquify just the same
+        topdef = top.reference
+        below = []
+
+        def collect(D, seen):
+            for ch in D.children:
+                R = ch.reference
+                if R is not None and not model.is_leaf_def(R) and id(R) not in seen:
+                    seen.add(id(R))
+                    below.append(R)
+                    collect(R, seen)
+        collect(topdef, set())
+        deep = [D for D in below if any(r.parent is not topdef for r in D.references)] or below
+        if deep:
+            X = deep[len(below) % len(deep)]
+            sub = _subtree(X)
+            hosts = [topdef] + [D for D in below if D not in sub]
+            Y = hosts[len(deep) % len(hosts)]
+            try:
+                Y.create_child(name="again_u", reference=X)
+            except Exception:  # noqa (name taken: skip)
+                return res
+            res.label("shared-again-after-uniquify")
+            before2 = model.elab(nl)
+            try:
+                U.uniquify(nl)
+            except Exception as e:  # noqa
+                res.violate("C08:uniquify-after-edit-raises:%s" % type(e).__name__, repr(e))
+                return res
+            walk(top, 1)
+            if res.violations:
+                sig, det = res.violations[0]
+                res.violations[0] = (sig.replace("C08:", "C08:after-edit:"), det)
+                return res
+            after2 = model.elab(nl)
+            if set(before2["occ"]) != set(after2["occ"]) or before2["nets"] != after2["nets"]:
+                res.violate("C08:after-edit:design-changed", "")
+            for code, detail in model.wf(nl, strict=True):
+                res.violate("C08:after-edit:" + code, detail)
         return res
+
+
+def _subtree(D):
+    """definitions reachable from D (to keep the added instance from closing a cycle)"""
+    out, stack = {D}, [D]
+    while stack:
+        for ch in stack.pop().children:
+            R = ch.reference
+            if R is not None and R not in out:
+                out.add(R)
+                stack.append(R)
+    return out
 
 
 def _netdiff(a, b):
